@@ -374,8 +374,14 @@ class Folder:
     def e_JoinedStr(self, n, env):
         return "<fstring>"
 
+    _OPSYM = {ast.Add: "+", ast.Sub: "-", ast.Mult: "*", ast.Div: "/", ast.MatMult: "@", ast.Mod: "%", ast.Pow: "**", ast.FloorDiv: "//"}
+
     def e_BinOp(self, n, env):
-        return _binop(n.op, self.ev(n.left, env), self.ev(n.right, env))
+        a, b = self.ev(n.left, env), self.ev(n.right, env)
+        if self.symbolic and (isinstance(a, (Sym, Opaque)) or isinstance(b, (Sym, Opaque))) and type(n.op) in self._OPSYM \
+                and not (isinstance(a, (list, tuple)) or isinstance(b, (list, tuple))):
+            return Sym(self._OPSYM[type(n.op)], [a, b])
+        return _binop(n.op, a, b)
 
     def e_UnaryOp(self, n, env):
         v = self.ev(n.operand, env)
@@ -594,6 +600,16 @@ class Folder:
                     if all(not isinstance(x, (Sym, Opaque, Obj)) for x in list(args) + list(kw.values())) and getattr(t, "cls", None) is None:
                         sub = Folder()
                         return sub.call(t.node, args, kw)
+                    if getattr(t, "cls", None) is not None and isinstance(f, ast.Attribute) and t.params and t.params[0] in ("self", "cls") \
+                            and all(not isinstance(x, Sym) for x in list(args) + list(kw.values())):
+                        recv = self.ev(f.value, env)
+                        pure = not any(isinstance(x, (ast.Attribute, ast.Subscript)) and isinstance(getattr(x, "ctx", None), (ast.Store, ast.Del)) for x in ast.walk(t.node)) \
+                            and not any(isinstance(x, ast.Call) and isinstance(x.func, ast.Attribute) and isinstance(x.func.value, ast.Name) and x.func.value.id == t.params[0] for x in ast.walk(t.node))
+                        if isinstance(recv, Obj) and pure:
+                            # a small predicate / accessor of the class on concrete arguments (e.g. self._is_none(self.time))
+                            sub = Folder(max_steps=2000)
+                            sub.func_stack.append(t.node)
+                            return sub.call(t.node, [recv] + args, kw)
                 except Refuse:
                     pass
         if self.symbolic:
@@ -852,7 +868,14 @@ class Folder:
             cur = self.ev(ast.Name(id=st.target.id, ctx=ast.Load()), env) if isinstance(st.target, ast.Name) else None
             if cur is None and not isinstance(st.target, ast.Name):
                 raise Refuse("augassign target")
-            self.assign(st.target, _binop(st.op, cur, self.ev(st.value, env)), env)
+            val = self.ev(st.value, env)
+            if isinstance(cur, list) and isinstance(st.op, ast.Add) and isinstance(val, (list, tuple)):
+                cur.extend(val)   # python semantics: += on a list extends the same object (every alias sees it)
+                return
+            if self.symbolic and (isinstance(cur, (Sym, Opaque)) or isinstance(val, (Sym, Opaque))) and type(st.op) in self._OPSYM:
+                self.assign(st.target, Sym(self._OPSYM[type(st.op)], [cur, val]), env)
+                return
+            self.assign(st.target, _binop(st.op, cur, val), env)
             return
         if isinstance(st, ast.Assert):
             if not self.truth(self.ev(st.test, env)):
